@@ -507,6 +507,7 @@ def numeric_check(fr, call, obs):
     for r in obs["modeled"]:
         by_key.setdefault(r["key"], []).append(r)
     non = fr.nonreporting.assign(_lo=fr.unit_lo, _hi=fr.unit_hi)
+    out_order = [tuple(code_of(c, v) for c, v in zip(agg, g)) for g in _sorted_groups([fr.nonreporting], agg)]
     for gi, g in enumerate(groups):
         counted = sum(gsum(df, g, RCOL) for df in votes_frames)
         gk = tuple(code_of(c, v) for c, v in zip(agg, g))
@@ -551,6 +552,9 @@ def numeric_check(fr, call, obs):
                 bad.append({"clause": f"{side}_bound_formula", "group": list(g), "expected_unrounded": e, "observed": o,
                             "stats": list(r["stats"]), "W": W, "W2": W2, "partial": partial, "counted": counted})
         r["floor_active"] = (last + lb < partial) or (last + ub < partial)
+        # row position in modeled_bounds (concat order of the matching loop) vs position in the groupby frames the floor
+        # comes from: the floor is applied by position, so a displaced row with an active floor is the critical case
+        r["displaced"] = out_order.index(gk) != [x["key"] for x in obs["modeled"]].index(gk)
         r["correction"] = abs(last + lb - (last + slo))
     return bad
 
